@@ -206,6 +206,19 @@ func (s *Sim) Events() []Event {
 	return all
 }
 
+// AsyncCount returns how many events of a kind asynchronous goroutines recorded so far.
+func (s *Sim) AsyncCount(kind string) int {
+	s.amu.Lock()
+	defer s.amu.Unlock()
+	n := 0
+	for _, e := range s.async {
+		if e.Kind == kind {
+			n++
+		}
+	}
+	return n
+}
+
 // Counts summarises open resources from the recorded events.
 type Counts struct{ OpenConns, OpenTx, OpenStmts, OpenRows int }
 
